@@ -131,10 +131,16 @@ static int xmi2mid_ParseXMI(struct xmi2mid_xmi_ctx *ctx);
 static int xmi2mid_ExtractTracks(struct xmi2mid_xmi_ctx *ctx, int32_t dstTrackNumber);
 static uint32_t xmi2mid_ExtractTracksFromXmi(struct xmi2mid_xmi_ctx *ctx);
 
+/* Bytes left between the read position and the end of the source (0 when the position was moved past the end) */
+static size_t xmi2mid_srcleft(struct xmi2mid_xmi_ctx *ctx)
+{
+    return (ctx->src_ptr < ctx->src_end) ? (size_t)(ctx->src_end - ctx->src_ptr) : 0;
+}
+
 static uint32_t xmi2mid_read1(struct xmi2mid_xmi_ctx *ctx)
 {
     uint8_t b0;
-    assert(ctx->src_ptr + 1 < ctx->src_end);
+    if(xmi2mid_srcleft(ctx) < 1) { ctx->src_ptr = ctx->src_end; return (0); } /* truncated data reads as zero */
     b0 = *ctx->src_ptr++;
     return (b0);
 }
@@ -142,7 +148,7 @@ static uint32_t xmi2mid_read1(struct xmi2mid_xmi_ctx *ctx)
 static uint32_t xmi2mid_read2(struct xmi2mid_xmi_ctx *ctx)
 {
     uint8_t b0, b1;
-    assert(ctx->src_ptr + 2 < ctx->src_end);
+    if(xmi2mid_srcleft(ctx) < 2) { ctx->src_ptr = ctx->src_end; return (0); }
     b0 = *ctx->src_ptr++;
     b1 = *ctx->src_ptr++;
     return (b0 + ((uint32_t)b1 << 8));
@@ -151,7 +157,7 @@ static uint32_t xmi2mid_read2(struct xmi2mid_xmi_ctx *ctx)
 static uint32_t xmi2mid_read4(struct xmi2mid_xmi_ctx *ctx)
 {
     uint8_t b0, b1, b2, b3;
-    assert(ctx->src_ptr + 4 < ctx->src_end);
+    if(xmi2mid_srcleft(ctx) < 4) { ctx->src_ptr = ctx->src_end; return (0); }
     b3 = *ctx->src_ptr++;
     b2 = *ctx->src_ptr++;
     b1 = *ctx->src_ptr++;
@@ -162,7 +168,7 @@ static uint32_t xmi2mid_read4(struct xmi2mid_xmi_ctx *ctx)
 static uint32_t xmi2mid_read4le(struct xmi2mid_xmi_ctx *ctx)
 {
     uint8_t b0, b1, b2, b3;
-    assert(ctx->src_ptr + 4 < ctx->src_end);
+    if(xmi2mid_srcleft(ctx) < 4) { ctx->src_ptr = ctx->src_end; return (0); }
     b3 = *ctx->src_ptr++;
     b2 = *ctx->src_ptr++;
     b1 = *ctx->src_ptr++;
@@ -172,7 +178,14 @@ static uint32_t xmi2mid_read4le(struct xmi2mid_xmi_ctx *ctx)
 
 static void xmi2mid_copy(struct xmi2mid_xmi_ctx *ctx, char *b, uint32_t len)
 {
-    assert(ctx->src_ptr + len < ctx->src_end);
+    size_t left = xmi2mid_srcleft(ctx);
+    if(len > left) /* truncated data: deliver what is there, zero the rest */
+    {
+        memcpy(b, ctx->src_ptr, left);
+        memset(b + left, 0, len - left);
+        ctx->src_ptr = ctx->src_end;
+        return;
+    }
     memcpy(b, ctx->src_ptr, len);
     ctx->src_ptr += len;
 }
@@ -897,6 +910,10 @@ static int32_t xmi2mid_ConvertSystemMessage(struct xmi2mid_xmi_ctx *ctx, const i
     }
 
     i += xmi2mid_GetVLQ(ctx, &ctx->current->len);
+
+    /* The payload can't be longer than the rest of the data */
+    if (ctx->current->len > xmi2mid_srcleft(ctx))
+        ctx->current->len = (uint32_t)xmi2mid_srcleft(ctx);
 
     if (!ctx->current->len)
         return (i);
